@@ -76,15 +76,15 @@ theorem handle_get {m : Mem} {h : Nat} {x : Reg × Bool} (hh : handle m h = .ok 
 
 theorem access_sim : ∀ (f : Fut) (m : Mem) (st : Bool) (r : Reg) (m' : Mem) (cs : List PCmd),
     accessCmds m st r f = .ok (m', cs) →
-    ∀ (H : List (Reg × Bool)) (L : List Nat) (act mu : List Bool) (hs : HSt) (ts : St) (p : List PCmd) (n : Nat),
-    Ext m.handles H → Rel H L act mu hs ts → Sub act m.active → m.active.length = act.length →
+    ∀ (H : List (Reg × Bool)) (L MH : List Nat) (act mu : List Bool) (hs : HSt) (ts : St) (p : List PCmd) (n : Nat),
+    Ext m.handles H → Rel H L MH act mu hs ts → Sub act m.active → m.active.length = act.length →
     Placed p n cs → ∀ a i, evalFut hs f = some (a, i) →
     (st = false → ∀ v, readCell hs.arrs a i = some v →
       ∃ ts1, TmpEq m.active ts ts1 ∧ Runs p n cs.length ts (ts1.setReg r v)) ∧
     (st = true → ∀ v l, ts.regs r = some v → ¬ TmpIn m.active r → hs.arrs a = some l → i < l.length →
       ∃ ts1, TmpEq m.active ts ts1 ∧ Runs p n cs.length ts (ts1.setArr a (l.set i (some v))))
   | .lit a0 i0, m, st, r, m', cs, h => by
-    intro H L act mu hs ts p n hext hrel hsub hlen hpl a i hev
+    intro H L MH act mu hs ts p n hext hrel hsub hlen hpl a i hev
     simp [accessCmds] at h
     obtain ⟨_, rfl⟩ := h
     simp [evalFut] at hev
@@ -100,7 +100,7 @@ theorem access_sim : ∀ (f : Fut) (m : Mem) (st : Bool) (r : Reg) (m' : Mem) (c
       exact runs_instr hpl.head (exec_store (by simpa using hr) (entryLoc_L _ _ _)
         (by rw [hrel.arrs]; exact ha) hi)
   | .reg a0 hh, m, st, r, m', cs, h => by
-    intro H L act mu hs ts p n hext hrel hsub hlen hpl a i hev
+    intro H L MH act mu hs ts p n hext hrel hsub hlen hpl a i hev
     unfold accessCmds at h
     split at h
     · cases h
@@ -126,7 +126,7 @@ theorem access_sim : ∀ (f : Fut) (m : Mem) (st : Bool) (r : Reg) (m' : Mem) (c
         · cases hev
       · cases hev
   | .fut a0 f, m, st, r, m', cs, h => by
-    intro H L act mu hs ts p n hext hrel hsub hlen hpl a i hev
+    intro H L MH act mu hs ts p n hext hrel hsub hlen hpl a i hev
     unfold accessCmds at h
     split at h
     · cases h
@@ -151,7 +151,7 @@ theorem access_sim : ∀ (f : Fut) (m : Mem) (st : Bool) (r : Reg) (m' : Mem) (c
                 split at hev
                 · rename_i i' hi'
                   cases hev
-                  have ih := (access_sim f m1 false (R t) m2 cs2 h2 H L act mu hs ts p n
+                  have ih := (access_sim f m1 false (R t) m2 cs2 h2 H L MH act mu hs ts p n
                     (by rw [a1.2.2.2.2.2.2.2]; exact hext) hrel
                     (by rw [a1.2.1]; exact hsub.trans (Sub.set _ _))
                     (by rw [a1.2.1]; simpa using hlen) hpl.left b j hbj).1 rfl vi hvi
@@ -188,14 +188,14 @@ theorem access_sim : ∀ (f : Fut) (m : Mem) (st : Bool) (r : Reg) (m' : Mem) (c
 /-- loading the value of a Future into a register -/
 theorem load_fut_sim {f : Fut} {m m' : Mem} {r : Reg} {cs : List PCmd}
     (h : accessCmds m false r f = .ok (m', cs))
-    {H : List (Reg × Bool)} {L : List Nat} {act mu : List Bool} {hs : HSt} {ts : St} {p : List PCmd} {n : Nat}
-    (hext : Ext m.handles H) (hrel : Rel H L act mu hs ts) (hsub : Sub act m.active)
+    {H : List (Reg × Bool)} {L MH : List Nat} {act mu : List Bool} {hs : HSt} {ts : St} {p : List PCmd} {n : Nat}
+    (hext : Ext m.handles H) (hrel : Rel H L MH act mu hs ts) (hsub : Sub act m.active)
     (hlen : m.active.length = act.length) (hpl : Placed p n cs) {v : Int} (hv : readFut hs f = some v) :
     ∃ ts1, TmpEq m.active ts ts1 ∧ Runs p n cs.length ts (ts1.setReg r v) := by
   unfold readFut at hv
   split at hv
   · rename_i a i hai
-    exact (access_sim f m false r m' cs h H L act mu hs ts p n hext hrel hsub hlen hpl a i hai).1 rfl v hv
+    exact (access_sim f m false r m' cs h H L MH act mu hs ts p n hext hrel hsub hlen hpl a i hai).1 rfl v hv
   · cases hv
 
 theorem TmpEq.to_act {act a : List Bool} {s1 s2 : St} (h : TmpEq a s1 s2) (hs : Sub act a)
@@ -203,8 +203,8 @@ theorem TmpEq.to_act {act a : List Bool} {s1 s2 : St} (h : TmpEq a s1 s2) (hs : 
   h.mono (fun _ hx => hx.sub hs hl)
 
 theorem addressEntry_loc {m : Mem} {f : Fut} {ent : POp} (h : addressEntry m f = .ok ent)
-    {H : List (Reg × Bool)} {L : List Nat} {act mu : List Bool} {hs : HSt} {ts : St}
-    (hext : Ext m.handles H) (hrel : Rel H L act mu hs ts) {a i : Nat} (hev : evalFut hs f = some (a, i)) :
+    {H : List (Reg × Bool)} {L MH : List Nat} {act mu : List Bool} {hs : HSt} {ts : St}
+    (hext : Ext m.handles H) (hrel : Rel H L MH act mu hs ts) {a i : Nat} (hev : evalFut hs f = some (a, i)) :
     entryLoc ts ent = some (a, i) := by
   cases f with
   | lit a0 i0 =>
@@ -231,8 +231,8 @@ theorem addressEntry_loc {m : Mem} {f : Fut} {ent : POp} (h : addressEntry m f =
 doing so whatever later temporaries are loaded -/
 theorem condOperand_sim {m m1 : Mem} {v : Val} {cs : List PCmd} {o : POp} {t : Option Nat}
     (h : condOperand m v = .ok (m1, cs, o, t))
-    {H : List (Reg × Bool)} {L : List Nat} {act mu : List Bool} {hs : HSt} {ts : St} {p : List PCmd} {n : Nat}
-    (hext : Ext m.handles H) (hrel : Rel H L act mu hs ts) (hsub : Sub act m.active)
+    {H : List (Reg × Bool)} {L MH : List Nat} {act mu : List Bool} {hs : HSt} {ts : St} {p : List PCmd} {n : Nat}
+    (hext : Ext m.handles H) (hrel : Rel H L MH act mu hs ts) (hsub : Sub act m.active)
     (hlen : m.active.length = act.length) (hpl : Placed p n cs) {x : Int} (hv : evalVal hs v = some x) :
     ∃ ts1, TmpEq m.active ts ts1 ∧ Runs p n cs.length ts ts1 ∧
       ∀ ts2, TmpEq m1.active ts1 ts2 → opVal ts2 o = some x := by
@@ -290,8 +290,8 @@ theorem condB_iff (c : Cond) (a b : Int) : condB c a b = true ↔ condHolds c a 
 /-- the code in front of an `if` body (`_get_branch_commands*`): loads, then the negated branch -/
 theorem branch_sim {m m' : Mem} {c : Cond} {a b : Val} {st : List PCmd} {l : Lbl}
     (h : branchCmds m c a b = .ok (m', st, l))
-    {H : List (Reg × Bool)} {L : List Nat} {act mu : List Bool} {hs : HSt} {ts : St} {p : List PCmd} {n tpos : Nat}
-    (hext : Ext m.handles H) (hrel : Rel H L act mu hs ts) (hsub : Sub act m.active)
+    {H : List (Reg × Bool)} {L MH : List Nat} {act mu : List Bool} {hs : HSt} {ts : St} {p : List PCmd} {n tpos : Nat}
+    (hext : Ext m.handles H) (hrel : Rel H L MH act mu hs ts) (hsub : Sub act m.active)
     (hlen : m.active.length = act.length) (hpl : Placed p n st) (hl : findLabel p l = some tpos)
     {va vb : Int} (hva : evalVal hs a = some va) (hvb : c.unary = false → evalVal hs b = some vb) :
     ∃ ts1, TmpEq m.active ts ts1 ∧
@@ -354,7 +354,7 @@ theorem branch_sim {m m' : Mem} {c : Cond} {a b : Val} {st : List PCmd} {l : Lbl
               cases ta with
               | none => have e : m1.active = m.active := t1; rw [e]
               | some t => rw [t1.2]; simp
-            have hrel1 : Rel H L act mu hs ts1 := hrel.tmp (hte1.to_act hsub hlen)
+            have hrel1 : Rel H L MH act mu hs ts1 := hrel.tmp (hte1.to_act hsub hlen)
             obtain ⟨ts2, hte2, hrun2, hop2⟩ := condOperand_sim h2 (by rw [sm1.handles]; exact hext) hrel1
               (hsub.trans hsub1) (by rw [hlen1]; exact hlen) hplB (hvb hu')
             have hte2' : TmpEq m.active ts1 ts2 := hte2.mono (fun _ hx => hx.sub hsub1 hlen1)
@@ -384,8 +384,8 @@ theorem branch_sim {m m' : Mem} {c : Cond} {a b : Val} {st : List PCmd} {l : Lbl
 
 theorem addOther_sim {m m1 : Mem} {v : Val} {cs : List PCmd} {o : POp} {t : Option Nat}
     (h : addOther m v = .ok (m1, cs, o, t))
-    {H : List (Reg × Bool)} {L : List Nat} {act mu : List Bool} {hs : HSt} {ts : St} {p : List PCmd} {n : Nat}
-    (hext : Ext m.handles H) (hrel : Rel H L act mu hs ts) (hsub : Sub act m.active)
+    {H : List (Reg × Bool)} {L MH : List Nat} {act mu : List Bool} {hs : HSt} {ts : St} {p : List PCmd} {n : Nat}
+    (hext : Ext m.handles H) (hrel : Rel H L MH act mu hs ts) (hsub : Sub act m.active)
     (hlen : m.active.length = act.length) (hpl : Placed p n cs) {x : Int} (hv : evalVal hs v = some x) :
     ∃ ts1, TmpEq m.active ts ts1 ∧ Runs p n cs.length ts ts1 ∧
       ∀ ts2, TmpEq m1.active ts1 ts2 → opVal ts2 o = some x := by
@@ -475,11 +475,11 @@ theorem not_tmp_of_set_self {a : List Bool} {t : Nat} (ht : a.getD t true = fals
 /-- `Future.add(other, mod)` -/
 theorem addF_sim {m m' : Mem} {f : Fut} {o : Val} {md : Option Int} {cs : List PCmd}
     (h : emitAddF m f o md = .ok (m', cs))
-    {H : List (Reg × Bool)} {L : List Nat} {mu : List Bool} {hs hs' : HSt} {ts : St} {p : List PCmd} {n : Nat}
-    (hext : Ext m.handles H) (hrel : Rel H L m.active mu hs ts) (hpl : Placed p n cs)
+    {H : List (Reg × Bool)} {L MH : List Nat} {mu : List Bool} {hs hs' : HSt} {ts : St} {p : List PCmd} {n : Nat}
+    (hext : Ext m.handles H) (hrel : Rel H L MH m.active mu hs ts) (hpl : Placed p n cs)
     {a i : Nat} {x y r : Int} (hev : evalFut hs f = some (a, i)) (hx : readCell hs.arrs a i = some x)
     (hy : evalVal hs o = some y) (hr : addResH x y md = some r) (hw : writeCell hs a i r = some hs') :
-    ∃ ts', Runs p n cs.length ts ts' ∧ Rel H L m.active mu hs' ts' := by
+    ∃ ts', Runs p n cs.length ts ts' ∧ Rel H L MH m.active mu hs' ts' := by
   unfold emitAddF at h
   split at h
   · cases h
@@ -515,7 +515,7 @@ theorem addF_sim {m m' : Mem} {f : Fut} {o : Val} {md : Option Int} {cs : List P
               obtain ⟨l, hl, hil, _⟩ := readCell_some hx
               -- 1. load self
               have hplLd : Placed p n ld := hpl.left.left.left
-              obtain ⟨tsA, hteA, hrunA⟩ := (access_sim f m1 false (R t) m2 ld h2 H L m.active mu hs ts p n
+              obtain ⟨tsA, hteA, hrunA⟩ := (access_sim f m1 false (R t) m2 ld h2 H L MH m.active mu hs ts p n
                 (by rw [s1.2.2.1]; exact hext) hrel (by rw [s1.2.1]; exact hsub1) (by rw [s1.2.1]; exact hl1)
                 hplLd a i hev).1 rfl x hx
               rw [s1.2.1] at hteA
@@ -538,7 +538,7 @@ theorem addF_sim {m m' : Mem} {f : Fut} {o : Val} {md : Option Int} {cs : List P
               have hrel3 := hrel.tmp hte3
               -- 4. store self
               have hplSt := hpl.right
-              obtain ⟨tsD, hteD, hrunD⟩ := (access_sim f m2 true (R t) m3 st h3 H L m.active mu hs
+              obtain ⟨tsD, hteD, hrunD⟩ := (access_sim f m2 true (R t) m3 st h3 H L MH m.active mu hs
                 (ts2.setReg (R t) r) p _
                 (by rw [sm2.handles, s1.2.2.1]; exact hext) hrel3 (by rw [e2]; exact hsub1) (by rw [e2]; exact hl1)
                 hplSt a i hev).2 rfl r l (by simp) (by rw [e2]; exact hnt) hl hil
@@ -561,10 +561,10 @@ theorem addF_sim {m m' : Mem} {f : Fut} {o : Val} {md : Option Int} {cs : List P
 /-- `RegFuture.add(other, mod)` -/
 theorem addR_sim {m m' : Mem} {hh : Nat} {o : Val} {md : Option Int} {cs : List PCmd}
     (h : emitAddR m hh o md = .ok (m', cs))
-    {H : List (Reg × Bool)} {L : List Nat} {mu : List Bool} {hs : HSt} {ts : St} {p : List PCmd} {n : Nat}
-    (hext : Ext m.handles H) (hrel : Rel H L m.active mu hs ts) (hpl : Placed p n cs)
+    {H : List (Reg × Bool)} {L MH : List Nat} {mu : List Bool} {hs : HSt} {ts : St} {p : List PCmd} {n : Nat}
+    (hext : Ext m.handles H) (hrel : Rel H L MH m.active mu hs ts) (hpl : Placed p n cs)
     {x y r : Int} (hx : hs.hregs hh = some x) (hy : evalVal hs o = some y) (hr : addResH x y md = some r) :
-    ∃ ts', Runs p n cs.length ts ts' ∧ Rel H L m.active mu (hs.setH hh r) ts' := by
+    ∃ ts', Runs p n cs.length ts ts' ∧ Rel H L MH m.active mu (hs.setH hh r) ts' := by
   unfold emitAddR at h
   split at h
   · cases h
@@ -648,14 +648,14 @@ def qopHead (g : List Nat) (k : Nat) : List PCmd :=
 /-- `Qubit(conn)`, gates, `measure(future=…)` / `measure()` -/
 theorem qop_sim {m m' : Mem} {g : List Nat} {tgt : MTgt} {cs : List PCmd}
     (h : emitQop m g tgt = .ok (m', cs)) (htgt : tgt ≠ .newReg)
-    {H : List (Reg × Bool)} {L : List Nat} {hs hs' : HSt} {ts : St} {p : List PCmd} {n : Nat}
-    (hext : Ext m.handles H) (hrel : Rel H L m.active m.measUsed hs ts) (hpl : Placed p n cs)
+    {H : List (Reg × Bool)} {L MH : List Nat} {hs hs' : HSt} {ts : St} {p : List PCmd} {n : Nat}
+    (hext : Ext m.handles H) (hrel : Rel H L MH m.active m.measUsed hs ts) (hpl : Placed p n cs)
     (hsem : ∃ a i,
       evalFut hs (match tgt with | .fut f => f | _ => .lit m.arrLens.length 0) = some (a, i) ∧
       writeCell { hs with trace := hs.trace ++ ([Ev.qalloc, Ev.init] ++ gateEvs g ++
           [Ev.meas (hs.outcomes.headD 0), Ev.qfree]), outcomes := hs.outcomes.tail } a i
         (hs.outcomes.headD 0) = some hs') :
-    ∃ ts', Runs p n cs.length ts ts' ∧ Rel H L m.active m.measUsed hs' ts' := by
+    ∃ ts', Runs p n cs.length ts ts' ∧ Rel H L MH m.active m.measUsed hs' ts' := by
   obtain ⟨a, i, hev, hw⟩ := hsem
   -- common shape of the two targets
   have key : ∀ (m0 m1 m2 : Mem) (k : Nat) (f : Fut) (st : List PCmd),
@@ -664,7 +664,7 @@ theorem qop_sim {m m' : Mem} {g : List Nat} {tgt : MTgt} {cs : List PCmd}
       accessCmds m1 true (M k) f = .ok (m2, st) →
       evalFut hs f = some (a, i) →
       Placed p n (qopHead g k ++ st) →
-      ∃ ts', Runs p n (qopHead g k ++ st).length ts ts' ∧ Rel H L m.active m.measUsed hs' ts' := by
+      ∃ ts', Runs p n (qopHead g k ++ st).length ts ts' ∧ Rel H L MH m.active m.measUsed hs' ts' := by
     intro m0 m1 m2 k f st h1 hact hmu hhd h2 hevf hpl'
     unfold qopHead at hpl' ⊢
     obtain ⟨hk, hm1⟩ := firstUnusedMeas_spec h1
@@ -713,8 +713,8 @@ theorem qop_sim {m m' : Mem} {g : List Nat} {tgt : MTgt} {cs : List PCmd}
       exact ⟨q2.arrs, q2.shmR, q2.shmA, fun x hx hx' => by
         show (((tsG.setReg Q0 0).setReg (M k) o)).regs x = ts.regs x
         rw [St.setReg_regs_ne _ _ hx']; exact q2.regs x hx hx'⟩
-    have hrelH : Rel H L m.active m.measUsed hs1 tsH := by
-      refine ⟨?_, ?_, ?_, ?_, hrel.inj, hrel.lens⟩
+    have hrelH : Rel H L MH m.active m.measUsed hs1 tsH := by
+      refine ⟨?_, ?_, ?_, ?_, hrel.inj, hrel.lens, hrel.mh⟩
       · show tsH.arrs = hs.arrs
         rw [qH.arrs]; exact hrel.arrs
       · show (((tsG.trace) ++ [Ev.meas o]) ++ [Ev.qfree]) = hs.trace ++ ([Ev.qalloc, Ev.init] ++ gateEvs g ++ [Ev.meas o, Ev.qfree])
@@ -741,7 +741,7 @@ theorem qop_sim {m m' : Mem} {g : List Nat} {tgt : MTgt} {cs : List PCmd}
       · cases hw
     have hev1 : evalFut hs1 f = some (a, i) := by
       rw [evalFut_congr (s1 := hs1) (s2 := hs) rfl rfl f]; exact hevf
-    obtain ⟨tsD, hteD, hrunD⟩ := (access_sim f _ true (M k) m2 st h2 H L m.active m.measUsed hs1 tsH p _
+    obtain ⟨tsD, hteD, hrunD⟩ := (access_sim f _ true (M k) m2 st h2 H L MH m.active m.measUsed hs1 tsH p _
       (by show Ext m0.handles H; rw [hhd]; exact hext) hrelH
       (by show Sub m.active m0.active; rw [hact]; exact Sub.refl _)
       (by show m0.active.length = m.active.length; rw [hact]) pS a i hev1).2 rfl o l hMv
